@@ -787,8 +787,9 @@ defvjp(
 )
 defvjp(
     anp.outer,
-    lambda ans, a, b: lambda g: match_complex(a, anp.dot(g, b.T)),
-    lambda ans, a, b: lambda g: match_complex(b, anp.dot(a.T, g)),
+    # outer flattens both of its arguments
+    lambda ans, a, b: lambda g: match_complex(a, anp.reshape(anp.dot(g, anp.ravel(b)), anp.shape(a))),
+    lambda ans, a, b: lambda g: match_complex(b, anp.reshape(anp.dot(anp.ravel(a), g), anp.shape(b))),
 )
 
 
